@@ -376,9 +376,10 @@ def _groebner_member(p, eqs, ring, time_limit=20.0):
     I = RQ.gens[0]
     gens.append(I * I + 1)
     import signal
+    from gvc.alg import _Alarm
 
     def handler(signum, frame):
-        raise TimeoutError()
+        raise _Alarm()
 
     old = signal.signal(signal.SIGALRM, handler)
     signal.setitimer(signal.ITIMER_REAL, time_limit)
@@ -387,7 +388,7 @@ def _groebner_member(p, eqs, ring, time_limit=20.0):
         pq = conv(p)
         _, rem = pq.div(G)
         return not rem
-    except TimeoutError:
+    except _Alarm:
         return None
     finally:
         signal.setitimer(signal.ITIMER_REAL, 0)
